@@ -21,11 +21,28 @@ Oracle (from the property statement):
                 clones) changes the snapshot of the other side; checked after
                 every step of mutation histories.
 
+  refusal       a deep clone may refuse (raise) only where Python's own
+                copy.deepcopy refuses a non-symbolic leaf of the value with
+                the same exception class; it must then leave the original
+                untouched.  It must never hand back a clone that shares the
+                leaf (or anything mutable inside it);
+  memo          a deep clone through a memo that already holds copies of other
+                values (in particular of the values held through pg.Ref, e.g.
+                copy.deepcopy([target, tree])) obeys the same oracle: a Ref of
+                the clone still holds the very value the original holds;
+  flag flips    the flags compared are the *current* ones: every node of every
+                subject gets its sealed / accessor-writable flag flipped after
+                construction (`flagflip:` ids, see _flip_cases).
+
 case_id: `clone/<check>/<node type>` for fidelity (clone depth in the key),
 `<depth>/<sharing check>/<type>`, `alias:<alias>/<check>/<type>` for a check
 that fails for an alias but holds for the clone of the same depth,
 `interference/<depth>/<type of mutated node>.<mutation family>/<what changed
-on the other side>`.
+on the other side>`,
+`flagflip:<flag>(<new value>)@<root|inner-as-parent|inner-differs-from-parent>/
+<check>/<type>` for a check that fails only after a flag of a node was flipped
+after construction (position of the flipped node / relation of its new flag to
+the flag of its parent in the id).
 """
 import copy
 import itertools
@@ -40,7 +57,7 @@ Symbolic = pg.Symbolic
 # Source fragments shared by the driver and by the witnesses.
 # --------------------------------------------------------------------------
 
-HEAD = "import copy\nimport pyglove as pg\nT = pg.typing\n"
+HEAD = "import copy\nimport threading\nimport pyglove as pg\nT = pg.typing\n"
 
 FRAGMENTS = [
     # (marker that makes the fragment necessary, source)
@@ -60,6 +77,38 @@ FRAGMENTS = [
     ('VS', "VS = T.Dict([('a', T.Int()), ('b', T.Dict([('c', T.Int(default=1)), ('l', T.List(T.Int(), default=[]))]))])\n"),
     ('LS', "LS = T.List(T.Dict([('v', T.Int(default=0))]), max_size=5)\n"),
     ('SHARED', "SHARED = pg.Dict(z=pg.Dict(zz=1))\n"),
+    # A leaf that Python cannot deep-copy (it owns a lock) and that holds a
+    # plain list and a symbolic node.
+    ('Res(', "class Res:\n"
+             "  def __init__(self): self.lock = threading.Lock(); self.items = [1]; self.node = pg.Dict(n=0)\n"
+             "  def __eq__(self, o): return isinstance(o, Res) and self.items == o.items\n"
+             "  def __hash__(self): return 5\n"),
+    # A leaf whose deep copy is refused with a chosen exception class.
+    ('Unc(', "class Unc:\n"
+             "  def __init__(self, exc): self.exc = exc; self.items = [1]\n"
+             "  def __eq__(self, o): return isinstance(o, Unc) and self.items == o.items\n"
+             "  def __hash__(self): return 3\n"
+             "  def __deepcopy__(self, memo): raise self.exc('no deep copy')\n"),
+    # Classes whose instances are sealed unless unsealed explicitly.
+    ('nf(', "class SF(pg.Functor): allow_symbolic_mutation = False\n"
+            "@pg.functor([('a', T.Any(default=None))], base_class=SF)\n"
+            "def nf(a): return a\n"),
+    ('NH(', "class NH(pg.hyper.OneOf): allow_symbolic_mutation = False\n"),
+    ('ND(', "class ND(pg.DNA): allow_symbolic_mutation = False\n"),
+    ('MyRef(', "class MyRef(pg.Ref): pass\n"),
+    ('W(', "class _P:\n"
+           "  def __init__(self, u, v=None): self.u = u; self.v = v\n"
+           "W = pg.symbolize(_P)\n"),
+    # Values held through references below n / a deepcopy memo that already
+    # holds copies of them (and of one unrelated list, so it is never empty).
+    ('_targets', "def _targets(n):\n"
+                 "  if isinstance(n, pg.Ref): return [n.value]\n"
+                 "  if not isinstance(n, pg.Symbolic): return []\n"
+                 "  return [t for _, v in n.sym_items() for t in _targets(v)]\n"
+                 "def _targets_memo(n):\n"
+                 "  memo = {}\n"
+                 "  copy.deepcopy([[0]] + _targets(n), memo)\n"
+                 "  return memo\n"),
 ]
 
 SNAP_SRC = '''\
@@ -154,9 +203,59 @@ def subjects(tier):
   add('object/sealed-leaf-objects-in-unsealed-containers',
       "o = pg.List([A(x=1).seal(), pg.Dict(k=TY(n=1).seal()), fn(a=1).seal()])")
   add('hyper/partial', "o = pg.hyper.OneOf(candidates=[TY.partial(), 1], allow_partial=True)")
+  # References as the cloned value itself: stand-alone and picked out of a tree.
+  add('ref/root', "o = pg.Ref(SHARED)")
+  add('ref/root-to-plain-list', "o = pg.Ref([1, [2]])")
+  add('ref/root-to-plain-dict', "o = pg.Ref({1: [2]})")
+  add('ref/root-partial-flag', "o = pg.Ref(SHARED, allow_partial=True)")
+  add('ref/root-subclass', "o = MyRef(SHARED)")
+  add('nested/ref-in-dict', "root = pg.Dict(r=pg.Ref(SHARED), k=1)\no = root.sym_getattr('r')")
+  add('nested/ref-in-list', "root = pg.List([pg.Ref(SHARED)])\no = root.sym_getattr(0)")
+  add('nested/ref-in-object', "root = A(x=pg.Ref(SHARED))\no = root.sym_getattr('x')")
+  # The referenced value is reachable a second way (it is also copied, as part
+  # of a leaf, by the same deep clone), several references to one value,
+  # references to and below other node types.
+  add('ref/target-also-in-leaf/dict', "L = [1]\no = pg.Dict(t=(L,), r=pg.Ref(L), u=(L,), s=pg.Ref(L))")
+  add('ref/target-also-in-leaf/list', "L = {1: [2]}\no = pg.List([pg.Ref(L), (L,), pg.Ref(L)])")
+  add('ref/target-also-in-leaf/object', "L = [1]\no = A(x=(L,), y=pg.Ref(L))")
+  add('ref/same-target-twice', "o = pg.Dict(a=pg.Ref(SHARED), b=pg.Ref(SHARED), c=[pg.Ref(SHARED.z), pg.Ref(SHARED.z)])")
+  add('ref/to-object-and-functor', "o = pg.Dict(r=pg.Ref(A(x=pg.Dict(k=1))), f=pg.Ref(fn(a=1)))")
+  add('ref/below-functor-and-hyper', "o = pg.Dict(f=fn(a=pg.Ref(SHARED)), h=pg.oneof([pg.Ref(SHARED), 1]))")
+  # Classes whose instances are sealed by default (class option), as built and
+  # unsealed explicitly afterwards.
+  for kind, ctor in (('object', "N(x=pg.Dict(p=[1]))"), ('object-nested', "N(x=N(x=pg.Dict(p=N(x=1))))"),
+                     ('functor', "nf(a=pg.Dict(x=1))"), ('hyper', "NH(candidates=[1, pg.Dict(a=2)])"),
+                     ('dna', "ND([0, (1, [2])])")):
+    if kind != 'object':
+      add(f'class-sealed/{kind}', f"o = {ctor}")
+    add(f'class-sealed/{kind}-unsealed-after', f"o = {ctor}\no.seal(False)")
+    add(f'class-sealed/{kind}-unsealed-after-in-dict', f"o = pg.Dict(k={ctor}, l=[{ctor}])\no.seal(False)")
+  # Further symbolic classes.
+  add('wrapper/symbolized-class', "o = W(u=pg.Dict(a=1), v=[pg.Dict(b=Leaf([1]))])")
+  add('hyper/floatv', "o = pg.floatv(0.0, 1.0)")
+  add('hyper/manyof-root', "o = pg.manyof(2, [1, pg.Dict(y=[3]), Leaf([1])])")
+  add('hyper/permutate', "o = pg.permutate([1, pg.Dict(y=[3]), 2])")
+  add('geno/dna-spec', "o = pg.dna_spec(pg.Dict(a=pg.oneof([1, 2]), b=pg.floatv(0., 1.)))")
+  add('geno/generator', "o = pg.geno.Random(seed=1)")
+  add('inferential/value-from-parent-chain', "o = pg.Dict(a=1, b=pg.Dict(a=pg.symbolic.ValueFromParentChain()))")
+  add('diff/tree', "o = pg.diff(pg.Dict(a=1, b=pg.Dict(c=1)), pg.Dict(a=2, b=pg.Dict(c=2)))")
+  add('list/typed-empty+flags', "o = pg.List([], value_spec=LS, sealed=True, accessor_writable=False)")
+  # Symbolic nodes held inside non-symbolic leaves.
+  add('leaves/symbolic-node-inside-leaf', "o = pg.Dict(a=Leaf(pg.Dict(c=[1])), t=(pg.Dict(d=1), {'k': pg.List([2])}))")
+  # Leaves Python refuses to deep-copy (see `refusal` in the module docstring).
+  add('leaves/uncopyable/lock', "o = pg.Dict(a=pg.Dict(b=1), l=threading.Lock())")
+  add('leaves/uncopyable/generator', "o = pg.List([pg.Dict(k=1), (i for i in range(3))])")
+  add('leaves/uncopyable/object-in-dict', "o = pg.Dict(n=pg.Dict(k=1), s=Res())")
+  add('leaves/uncopyable/object-in-list', "o = pg.List([pg.Dict(k=1), Res()])")
+  add('leaves/uncopyable/object-in-object', "o = A(x=Res(), y=pg.Dict(k=[Res()]))")
+  add('leaves/uncopyable/object-in-tuple', "o = pg.Dict(t=(1, [Res()]), n=[1])")
+  add('leaves/uncopyable/object-in-functor-and-hyper', "o = pg.Dict(f=fn(a=Res()), h=pg.oneof([Res(), 1]))")
+  for exc in ('TypeError', 'RuntimeError', 'ValueError', 'AttributeError', 'NotImplementedError', 'copy.Error'):
+    add(f'leaves/uncopyable/deepcopy-raises-{exc}', f"o = pg.Dict(a=pg.Dict(b=1), u=Unc({exc}), l=[(Unc({exc}),)])")
   # The same values sealed as a whole after construction.
   for label, src in list(S):
-    if label.split('/')[0] in ('object', 'ref', 'functor', 'dna', 'hyper') and 'sealed' not in label:
+    if (label.split('/')[0] in ('object', 'ref', 'functor', 'dna', 'hyper', 'wrapper', 'geno', 'diff')
+        and 'sealed' not in label):
       add(label + '+sealed-after', src + '\no.seal()')
   return S
 
@@ -180,6 +279,15 @@ ALIASES = [
     ('clone-of-clone', 'deep', 'o.clone(deep=True).clone(deep=True)'),
     ('clone-of-clone', 'shallow', 'o.clone().clone()'),
     ('shallow-of-deep', 'deep', 'o.clone(deep=True).clone()'),
+    # Deep copies through a memo that already holds copies of the values the
+    # subject holds through references (and one unrelated list).
+    ('copy.deepcopy-memo-has-ref-targets', 'deep', 'copy.deepcopy(o, _targets_memo(o))'),
+    ('pg.clone-memo-has-ref-targets', 'deep', 'pg.clone(o, deep=True, memo=_targets_memo(o))'),
+    ('sym_clone-memo-has-ref-targets', 'deep', 'o.sym_clone(deep=True, memo=_targets_memo(o))'),
+    ('copy.deepcopy-after-ref-targets-in-list', 'deep', 'copy.deepcopy(_targets(o) + [o])[-1]'),
+    ('copy.deepcopy-after-ref-targets-in-tuple', 'deep', 'copy.deepcopy((tuple(_targets(o)), o))[1]'),
+    ('copy.deepcopy-after-ref-targets-in-dict', 'deep', "copy.deepcopy({'t': _targets(o), 'o': o})['o']"),
+    ('pg.clone-after-ref-targets-in-list', 'deep', 'pg.clone(_targets(o) + [o], deep=True)[-1]'),
 ]
 # `.copy()` is the container protocol's shallow copy; the statement names only
 # the clone family, so only equality / sharing / tree checks apply to it.
@@ -199,6 +307,8 @@ def _tname(n):
     return 'dna'
   if isinstance(n, pg.hyper.HyperValue):
     return 'hyper'
+  if isinstance(n, pg.geno.DNASpec):
+    return 'dnaspec'
   if isinstance(n, Symbolic):
     return 'object'
   return 'leaf'
@@ -230,25 +340,44 @@ _IMMUTABLE = (int, float, complex, str, bytes, bool, type(None), frozenset,
               type, type(pg.MISSING_VALUE))
 
 
-def _mutable_parts(v, expr):
-  """Mutable objects reachable inside a non-symbolic leaf: (object, expr)."""
-  if isinstance(v, _IMMUTABLE) or callable(v):
+def _mutable_parts(v, expr, _depth=0):
+  """Mutable objects reachable inside a non-symbolic leaf: (object, expr).
+
+  Descends tuples, lists, dict values and the attributes of plain objects; a
+  symbolic node held inside a leaf is one part (not descended).  Anything that
+  is not known to be immutable counts as mutable (locks, generators, ...).
+  """
+  if isinstance(v, _IMMUTABLE) or callable(v) or _depth > 8:
     return
   if isinstance(v, tuple):
     for i, x in enumerate(v):
-      yield from _mutable_parts(x, f'{expr}[{i}]')
-    return
-  if isinstance(v, Symbolic):
+      yield from _mutable_parts(x, f'{expr}[{i}]', _depth + 1)
     return
   yield v, expr
+  if isinstance(v, Symbolic):
+    return
   if isinstance(v, list):
     for i, x in enumerate(v):
-      yield from _mutable_parts(x, f'{expr}[{i}]')
+      yield from _mutable_parts(x, f'{expr}[{i}]', _depth + 1)
   elif isinstance(v, dict):
     for k, x in v.items():
-      yield from _mutable_parts(x, f'{expr}[{k!r}]')
-  elif isinstance(v, Leaf):
-    yield from _mutable_parts(v.v, f'{expr}.v')
+      yield from _mutable_parts(x, f'{expr}[{k!r}]', _depth + 1)
+  elif isinstance(getattr(v, '__dict__', None), dict):
+    for k, x in vars(v).items():
+      yield from _mutable_parts(x, f'{expr}.{k}', _depth + 1)
+
+
+def _refusable(o, exc):
+  """Does Python's copy.deepcopy refuse a leaf of `o` with the class of `exc`?"""
+  for kind, _, a, _ in _pairs(o, o):
+    if kind != 'leaf' or isinstance(a, _IMMUTABLE):
+      continue
+    try:
+      copy.deepcopy(a)
+    except Exception as e:  # pylint: disable=broad-except
+      if type(e) is type(exc):
+        return True
+  return False
 
 
 def _has_mutable(v):
@@ -437,6 +566,16 @@ def drv_clone_fidelity(tier, seed):
         _exec(f'c = {expr}', env)
       except Exception as e:  # pylint: disable=broad-except
         base_raised.add(depth)
+        if depth == 'deep' and _refusable(env['o'], e):
+          # Python itself refuses to deep-copy a leaf: a refusal is fine, a
+          # half-made clone that changed the original is not.
+          after = _snap(_root_of(env))
+          rec.case('clone/deep-refused-for-uncopyable-leaf' + ('' if before == after else '/modifies-original'),
+                   (label, depth), before == after,
+                   f'[{label}] {expr} raised {type(e).__name__} and changed the original: ' + _diff(before, after),
+                   _wit(src, ["b = _snap(root if 'root' in dir() else o)", f'try: c = {expr}\nexcept Exception: pass',
+                              "assert _snap(root if 'root' in dir() else o) == b"], snap=True))
+          continue
         rec.case(f'clone/raises/{_tname(env["o"])}', (label, depth), False,
                  f'[{label}] {expr} raised {type(e).__name__}: {e}',
                  _wit(src, [f'c = {expr}']))
@@ -471,6 +610,12 @@ def drv_clone_fidelity(tier, seed):
         _exec(f'c = {expr}', env)
       except Exception as e:  # pylint: disable=broad-except
         if depth in base_raised:
+          after = _snap(_root_of(env))
+          if before != after:
+            rec.case(f'alias:{alias}/raises-and-modifies-original', (label, depth), False,
+                     f'[{label}] {expr} raised {type(e).__name__} and changed the original: ' + _diff(before, after),
+                     _wit(src, ["b = _snap(root if 'root' in dir() else o)", f'try: c = {expr}\nexcept Exception: pass',
+                                "assert _snap(root if 'root' in dir() else o) == b"], snap=True))
           continue
         rec.case(f'alias:{alias}/raises', (label, depth), False,
                  f'[{label}] {expr} raised {type(e).__name__}: {e}', _wit(src, [f'c = {expr}']))
@@ -496,8 +641,71 @@ def drv_clone_fidelity(tier, seed):
                  _wit(src, [f'c = {expr}', a]))
       if not fails and before == after:
         rec.case(f'alias:{alias}', (label, depth), True)
+    _flip_cases(rec, label, src, base_fail, base_raised, tier)
   _override_cases(rec)
   return rec.result()
+
+
+FLIP_EXPRS = BASES + [('shallow', 'copy.copy(o)'), ('deep', 'copy.deepcopy(o)')]
+
+
+def _flip_cases(rec, label, src, base_fail, base_raised, tier):
+  """Clones after one flag of one node was flipped after construction.
+
+  The flags of a clone must be those the original has *now*, whichever way it
+  got them (constructor argument, class default, a later seal()/
+  set_accessor_writable() on the node or on an ancestor).
+  """
+  try:
+    o0 = build(src)['o']
+  except Exception:  # pylint: disable=broad-except
+    return
+  nodes = [keys for kind, keys, _, _ in _pairs(o0, o0) if kind == 'node']
+  exprs = [x for x in (FLIP_EXPRS[:2] if tier == 'quick' else FLIP_EXPRS) if x[0] not in base_raised]
+  for keys in nodes:
+    nav = _nav('o', keys)
+    for flag, attr, setter in (('seal', 'is_sealed', 'seal'),
+                               ('accessor', 'accessor_writable', 'set_accessor_writable')):
+      for depth, expr in exprs:
+        env = build(src)
+        _exec(f'_n = {nav}', env)
+        node = env['_n']
+        new = not getattr(node, attr)
+        stmt = f'{nav}.{setter}({new})'
+        if _apply(env, stmt) is not None or getattr(node, attr) != new:
+          continue  # whether a flag can be flipped is not this property
+        parent = node.sym_parent
+        where = ('root' if not keys else
+                 'inner-as-parent' if getattr(parent, attr, None) == new else 'inner-differs-from-parent')
+        prefix = f'flagflip:{flag}({new})@{where}'
+        key = (label, keys, depth, expr)
+        before = _snap(_root_of(env))
+        try:
+          _exec(f'c = {expr}', env)
+        except Exception as e:  # pylint: disable=broad-except
+          if not (depth == 'deep' and _refusable(env['o'], e)):
+            rec.case(f'{prefix}/raises/{_tname(env["o"])}', key, False,
+                     f'[{label}] {stmt}; {expr} raised {type(e).__name__}: {e}',
+                     _wit(src, [stmt, f'c = {expr}']))
+          continue
+        after = _snap(_root_of(env))
+        if before != after:
+          rec.case(f'{prefix}/modifies-original/{_tname(node)}', key, False,
+                   f'[{label}] {stmt}; {expr}: ' + _diff(before, after),
+                   _wit(src, [stmt, "b = _snap(root if 'root' in dir() else o)", f'c = {expr}',
+                              "assert _snap(root if 'root' in dir() else o) == b"], snap=True))
+        fails = [f for f in fidelity(env['o'], env['c'], depth)
+                 if (f[0], f[1], f[2]) not in base_fail.get(depth, set())]
+        seen = set()
+        for chk, t, fkeys, msg, a in fails:
+          # Only the failing node nearest to the root (parents come first).
+          if chk in seen:
+            continue
+          seen.add(chk)
+          rec.case(f'{prefix}/{chk}/{t}', key + (fkeys,), False, f'[{label}] {stmt}; {expr}: {msg}',
+                   _wit(src, [stmt, f'c = {expr}', a]))
+        if not fails and before == after:
+          rec.case(f'flagflip:{flag}/{depth}', key, True)
 
 
 def _override_cases(rec):
@@ -565,7 +773,13 @@ def mutations(root, name, depth):
       if depth != 'deep':
         continue
       for x, ex in _mutable_parts(a, e):
-        if isinstance(x, list):
+        if isinstance(x, pg.List):
+          yield 'leaf', 'leaf-write', 'symbolic-list-inside-leaf.append', f'{_CTX} {ex}.append(9)'
+        elif isinstance(x, pg.Dict):
+          yield 'leaf', 'leaf-write', 'symbolic-dict-inside-leaf.setitem', f"{_CTX} {ex}['zz'] = 9"
+        elif isinstance(x, Symbolic):
+          yield 'leaf', 'leaf-write', 'symbolic-node-inside-leaf.seal', f'{ex}.seal({not x.is_sealed})'
+        elif isinstance(x, list):
           yield 'leaf', 'leaf-write', 'list.append', f'{ex}.append(9)'
         elif isinstance(x, dict):
           yield 'leaf', 'leaf-write', 'dict.setitem', f"{ex}['zz'] = 9"
@@ -575,10 +789,16 @@ def mutations(root, name, depth):
           yield 'leaf', 'leaf-write', 'bytearray.append', f'{ex}.append(9)'
         elif isinstance(x, Leaf):
           yield 'leaf', 'leaf-write', 'attr', f'{ex}.v = 9'
+        elif isinstance(getattr(x, '__dict__', None), dict):
+          yield 'leaf', 'leaf-write', 'new-attr', f'{ex}.zz = 9'
       continue
+    if not keys and a.sym_parent is None:
+      # Using a value: putting it into a container of its own.
+      yield t, 'attach', 'into-new-dict', f'_h = pg.Dict(slot={e})'
+      yield t, 'attach', 'into-new-list', f'_h = pg.List([0, {e}])'
+    yield t, 'seal', f'seal({not a.is_sealed})', f'{e}.seal({not a.is_sealed})'
     if isinstance(a, pg.Ref):
       continue
-    yield t, 'seal', f'seal({not a.is_sealed})', f'{e}.seal({not a.is_sealed})'
     yield t, 'accessor', 'set_accessor_writable', f'{e}.set_accessor_writable({not a.accessor_writable})'
     ks = list(a.sym_keys())
     if isinstance(a, pg.List):
